@@ -22,20 +22,38 @@ import (
 // the history without depending on where the positional reads of that goroutine fall.
 
 type lockedFS struct {
-	fs *scan.SimFS
-	mu *sync.Mutex
-	h  *harness
+	fs     *scan.SimFS
+	mu     *sync.Mutex
+	h      *harness
+	noSeek bool // regular-file handles do not implement io.Seeker (legal: the contract asks for ReaderAt only)
 }
 
 func (l lockedFS) Open(name string) (fs.File, error) {
 	l.mu.Lock()
 	defer l.mu.Unlock()
+	if n := l.fs.Root.Resolve(name); n != nil && n.Kind == "fifo" && fs.ValidPath(name) {
+		// A named pipe without a writer: open(2) never returns.  The walk itself never opens
+		// non-regular files; an extractor that opens one (a companion file it does not check) hangs.
+		l.fs.Rec.Add("open", name, "", "fifo: blocks forever")
+		who := "engine"
+		if l.h.cur != nil {
+			who = l.h.cur.Ext
+		}
+		l.h.budgetHit = "open-never-returns:" + who
+		if goid() == l.h.scanGoid {
+			panic(budgetExceeded{"open-never-returns", who})
+		}
+		return nil, &fs.PathError{Op: "open", Path: name, Err: fs.ErrInvalid}
+	}
 	f, err := l.fs.Open(name)
 	if err != nil {
 		return nil, err
 	}
 	if _, ok := f.(fs.ReadDirFile); ok {
 		return lockedDir{lockedFile{f, l.mu, l.h}}, nil
+	}
+	if l.noSeek {
+		return noSeekFile{lockedFile{f, l.mu, l.h}}, nil
 	}
 	return lockedFile{f, l.mu, l.h}, nil
 }
@@ -101,6 +119,14 @@ func (l lockedFile) Seek(off int64, whence int) (int64, error) {
 	}
 	return 0, errors.New("not a regular file")
 }
+
+// noSeekFile hides Seek: Stat, Read, Close and ReadAt only.
+type noSeekFile struct{ lf lockedFile }
+
+func (n noSeekFile) Stat() (fs.FileInfo, error)              { return n.lf.Stat() }
+func (n noSeekFile) Read(b []byte) (int, error)              { return n.lf.Read(b) }
+func (n noSeekFile) Close() error                            { return n.lf.Close() }
+func (n noSeekFile) ReadAt(b []byte, off int64) (int, error) { return n.lf.ReadAt(b, off) }
 
 type lockedDir struct{ lockedFile }
 
